@@ -35,6 +35,8 @@ class C04Spec(explore.Spec):
         t = alpha.lines(v)
         # internal lines that name a child other than 255 are invalid: they must leave the tree alone
         evs += [alpha.rx("1;0;3;0;0;15"), alpha.rx("1;7;3;0;11;Bogus")]
+        # CR LF framed input and trailing blanks: the line terminator and trailing whitespace are not part of the payload
+        evs += [alpha.rx("1;255;3;0;11;sk\r"), alpha.rx("1;0;1;0;2;1 \t")]
         if cfg.get("flavour") != "async":
             # a burst: two lines queued before the poll thread runs - they take effect in arrival order
             evs += [("rx2", t["SA0"], t["SA0z"]), ("rx2", t["PA"], t["CA0"]), ("rx2", t["SA0z"], t["SA0"])]
